@@ -43,7 +43,7 @@ CLAIMS = {
             'C12_*: over every reachable state of the command-thread/search-thread LTS at shared-operation granularity: the command thread never blocks, a stop seen by a running search is in the channel until polled, exactly one bestmove per go, isready always answered and transparent, no stale token reaches a later search, bounded work after the stop; the pre-fix protocol is refuted by three concrete schedules. C12lat.v (LatencyProofs): the bound the transition system assumes between polls is proved of the search model: at most 64 node evaluations between two polls of the stop channel (one leftmost capture chain), a latched flag only unwinds, a stop visible at the k-th poll ends the whole go within (k+1+max_depth)*64 evaluations; the quiescence loop as it was before fix 67f3a87 never polled (C12_prefix_quiescence_never_polled). Tie: PROTO stream - random interleavings of commands and search-thread progress with the shared state (running flag, pending stop, bestmoves, readyoks, interruption flag, phase) compared after every step with Protocol.step; stop latency of the real binary on capture-heavy positions.' + CORR,
             TB + 'Partial: sequentially consistent interleaving of shared operations; the Go memory model/scheduler is not modelled (the shared accesses are an atomic.Bool and channel operations; -race run in the thorough tier).', '6/C12'),
     'C13': ('Coq theorems (lia) on the allotment formula + translation validation of calcEndtime from the Go source text + exhaustive boundary-lattice correspondence through the real `go` command',
-            'C13_value/mover_clock/bounds/mono_left/mono_inc/anti_mtg/movetime/clock_deadline/parsed_mtg/no_panic hold for ALL integers in the stated range (C13_movetime for every movetime value, -1 included); C13src.v: the SOURCE TEXT of calcEndtime is translated to a syntax tree on every run (verifh gen-fns, go/parser) and proved, under the Go semantics of GoLang.v, to compute exactly the model function for all arguments (division by zero included), so an edit of that function breaks a named proof; the model (Uci.v) is also executed against the built engine on 462k `go` commands (complete lattice + random/malformed argument lists).' + CORR,
+            'C13_value/mover_clock/bounds/mono_left/mono_inc/anti_mtg/movetime/clock_deadline/parsed_mtg/no_panic hold for ALL integers in the stated range (C13_movetime for every movetime value, -1 included; C13_marker_is_no_argument: the model's encoding of 'no movetime argument' cannot be produced by any argument text); C13src.v: the SOURCE TEXT of calcEndtime is translated to a syntax tree on every run (verifh gen-fns, go/parser) and proved, under the Go semantics of GoLang.v, to compute exactly the model function for all arguments (division by zero included), so an edit of that function breaks a named proof; the model (Uci.v) is also executed against the built engine on 462k `go` commands (complete lattice + random/malformed argument lists).' + CORR,
             TB + 'Partial: wall-clock honouring of the deadline is sampled (validation).', '6/C13'),
     'C14': ('Coq theorems on the session machine (position resets, go reads only position+killers, log interval only affects currmove lines) + engine-vs-engine histories',
             'C14_position_resets, C14_go_reads_only_position_and_killers, C14_logging_option_irrelevant: after an accepted `position` the only state a `go` reads is the position, an EMPTY killer table and the logging interval; the interval changes nothing but currmove events (simulation proof through the whole search: scores, lines, node counts, killers equal). Engine: the probe `position P; go depth d` in a fresh process vs after random histories (other and the same position searched deeper, stopped searches, perft/eval, setoption), move numbers at the killer-table boundaries; all info-depth lines incl. node counts and PVs must be identical.' + CORR,
